@@ -251,6 +251,12 @@ class Profile(HookHost):
 
         polygon = clip_by_rect(poly, -width / 2, -math.inf, width / 2, math.inf)
 
+        if not isinstance(polygon, Polygon) or polygon.is_empty or not polygon.is_valid or not polygon.is_simple:
+            raise ValueError(
+                "The requested dimensions do not yield a valid cross-section."
+                "May be caused by overfilling a closed roll gap."
+            )
+
         return cls(cross_section=refine_cross_section(polygon), classifiers=set(groove.classifiers), **kwargs)
 
     @classmethod
